@@ -758,22 +758,29 @@ impl<C: CellType> OptRebuild<'_, C> {
                                 None,
                             ];
                         } else if inc.variables().all(|x| constant.contains(&x)) {
-                            if let Some(m) = mul
-                                .wrapping_pow(c)
-                                .wrapping_mul(mul)
-                                .wrapping_add(C::NEG_ONE)
-                                .wrapping_div(mul.wrapping_add(C::NEG_ONE))
-                            {
-                                return [
-                                    Some(
-                                        Expr::val(mul.wrapping_pow(c))
-                                            .mul(Expr::var(var))
-                                            .add(Expr::val(m).mul(inc)),
-                                    ),
-                                    None,
-                                    None,
-                                ];
+                            // After `c` iterations of `var = mul * var + inc` the value
+                            // is `mul^c * var + (mul^(c-1) + ... + mul + 1) * inc`. The sum
+                            // is computed by doubling, since `(mul^c - 1) / (mul - 1)` has
+                            // more than one solution modulo 2^n whenever `mul` is odd.
+                            let mut sum = C::ZERO;
+                            let mut pow = C::ONE;
+                            for bit in (0..C::BITS).rev() {
+                                sum = sum.wrapping_mul(pow.wrapping_add(C::ONE));
+                                pow = pow.wrapping_mul(pow);
+                                if c.wrapping_shr(bit).is_odd() {
+                                    sum = sum.wrapping_mul(mul).wrapping_add(C::ONE);
+                                    pow = pow.wrapping_mul(mul);
+                                }
                             }
+                            return [
+                                Some(
+                                    Expr::val(pow)
+                                        .mul(Expr::var(var))
+                                        .add(Expr::val(sum).mul(inc)),
+                                ),
+                                None,
+                                None,
+                            ];
                         }
                     }
                 }
